@@ -60,6 +60,13 @@ def _c01() -> List[Obl]:
         out.append(Obl(id=f"c01.{fn}", prop="C01", engine="verus", target=f"history:{fn}", fns=[],
                        note="pure lemma: the per-operation contracts compose over every history and every prefix of it"))
     out += _verus_writer_unary("C01") + _verus_writer_bits("C01")
+    # the byte-stream adapter backend delivers every word's bytes whole and in order (shared with C11)
+    for w in WWORDS:
+        full = w in ("u8", "u16", "u32")
+        out.append(Obl(id=f"c01.backend.adapter_write_word.{w}", prop="C01", engine="kani", target=f"obl_c11::{w}_::c11_write_word",
+                       tier="quick" if w in ("u16", "u64") else "thorough", kind="complete" if full else "bounded",
+                       bound="" if full else "fault schedules of a bounded number of calls of the wrapped sink (see c11.write_word)",
+                       fns=["WordAdapter::write_word (sink with short writes / interrupts / errors)"]))
     return out
 
 
@@ -349,6 +356,12 @@ def _c11() -> List[Obl]:
                            fns=fns, note=bnd))
         out.append(Obl(id=f"c11.flush.{w}", prop="C11", engine="kani", target=f"obl_c11::{w}_::c11_flush", tier=tier,
                        fns=["WordAdapter::flush"], note="the wrapped sink's flush may fail (Interrupted or hard error): Ok only if it succeeded"))
+        # a bit writer over the adapter hands its flush on to the adapter (shared with C01: the sink may buffer until flushed)
+        for el, E in ENDIANS:
+            for hn in ("flush", "into_inner", "drop"):
+                out.append(Obl(id=f"c11.bit_writer.{hn}.{E}.{w}", prop="C11", engine="kani", target=f"obl_c01::{el}::{w}_::c01_{hn}",
+                               tier="quick" if (w in ("u8", "u64") and hn == "flush") else "thorough", only=r"flushes the backend",
+                               fns=[f"BufBitWriter<{E},_<{w}>>::{hn} (forwards the flush to its backend)"]))
         out.append(Obl(id=f"c11.positions.{w}", prop="C11", engine="kani", target=f"obl_c11::{w}_::c11_positions", tier=tier, kind="bounded",
                        bound="Cursor over at most 2 words plus a partial tail; contents, length and target word symbolic",
                        fns=["WordAdapter::word_pos", "WordAdapter::set_word_pos", "WordAdapter::read_word"]))
@@ -581,8 +594,24 @@ def _c05() -> List[Obl]:
     return out
 
 
+LEN_OBJ_NAMES = (["unary", "gamma", "delta", "omega", "vbyte_be", "vbyte_le"] + [f"zeta{k}" for k in range(1, 11)] + [f"rice{k}" for k in range(0, 11)]
+                 + [f"pi{k}" for k in range(0, 11)] + [f"golomb{k}" for k in range(1, 11)] + [f"exp_golomb{k}" for k in range(0, 11)])
+
+
+def _len_objects(prop: str) -> List[Obl]:
+    """length-dispatch objects on every named code, every value (code concrete per harness, value symbolic)"""
+    quick = {"golomb4", "golomb8", "golomb1", "rice0", "pi0", "zeta1", "exp_golomb0", "omega", "zeta3", "golomb7"}
+    out = [Obl(id=f"{prop.lower()}.len_objects.{nm}", prop=prop, engine="kani", target=f"obl_c10::hlen::len_objects_{nm}",
+               tier="quick" if nm in quick else "thorough",
+               fns=[f"FuncCodeLen::new({nm}).len and Codes::len against the code's own length function, every value"]) for nm in LEN_OBJ_NAMES]
+    for E in ("be", "le"):
+        out.append(Obl(id=f"{prop.lower()}.len_objects.bits.{E.upper()}", prop=prop, engine="native", target=f"c10_names:c10_names_func_{E}", kind="bounded",
+                       bound="concrete execution: all 59 named codes x 11 values", fns=["FuncCodeLen::new(code).len against the bits written and the bits consumed by the named code"]))
+    return out
+
+
 def _c06() -> List[Obl]:
-    return (_verus_golomb("C06", [V_MB_L, V_G_L, V_MB_W, V_G_W, V_MB_R, V_G_R, ("lemma_limit", ""), ("lemma_golomb_no_overflow", "")]) + _stdspec("C06", ["ilog2"]) + _verus_rice("C06", [V_R_L, V_R_W, V_R_R, ("lemma_rice_no_overflow", "")]) + _verus_zeta("C06", [V_Z_L, V_Z_W, V_Z_R, ("lemma_zeta_params", "")]) + _verus_pi("C06", [V_P_L, V_P_W, V_P_R, ("lemma_pi_small", "")]) + _verus_eg("C06", [V_G2_L, V_G2_W, V_G2_R, V_E_L, V_E_W, V_E_R, ("lemma_eg_quot", "")]) +_codes("C06", r"c06", [(LEN_H, None), (DEF_H, None)]) + _golomb("C06", r"c06", ["len", "def"])
+    return _len_objects("C06") + (_verus_golomb("C06", [V_MB_L, V_G_L, V_MB_W, V_G_W, V_MB_R, V_G_R, ("lemma_limit", ""), ("lemma_golomb_no_overflow", "")]) + _stdspec("C06", ["ilog2"]) + _verus_rice("C06", [V_R_L, V_R_W, V_R_R, ("lemma_rice_no_overflow", "")]) + _verus_zeta("C06", [V_Z_L, V_Z_W, V_Z_R, ("lemma_zeta_params", "")]) + _verus_pi("C06", [V_P_L, V_P_W, V_P_R, ("lemma_pi_small", "")]) + _verus_eg("C06", [V_G2_L, V_G2_W, V_G2_R, V_E_L, V_E_W, V_E_R, ("lemma_eg_quot", "")]) +_codes("C06", r"c06", [(LEN_H, None), (DEF_H, None)]) + _golomb("C06", r"c06", ["len", "def"])
             + _codes("C06", r"bits consumed", [(["rt_gamma", "rt_delta", "rt_omega", "rt_zeta3", "rt_vbyte_be", "rt_zeta_k2", "rt_pi_k2", "rt_exp_golomb_k1"], None)]))
 
 
@@ -725,6 +754,18 @@ def _c10() -> List[Obl]:
                 out.append(Obl(id=f"c10.all_values.{mech}.{r}.{E}", prop="C10", engine="kani", target=f"obl_c10::{hm}::sym_{mech}_{r}",
                                tier="quick" if quick else "thorough", kind=kind,
                                bound="codeword must fit the 256-bit model" if kind == "bounded" else "", fns=[f"dispatch of {r} through {mech}: read, write, len for every value"]))
+    for E in ("be", "le"):
+        out.append(Obl(id=f"c10.names.const.{E.upper()}", prop="C10", engine="native", target=f"c10_names:c10_names_const_{E}", kind="bounded",
+                       bound="concrete execution: all 59 named constants of code_consts (aliases included) x 11 values, 5 preceding bits",
+                       fns=["code_consts::* (the named constants, aliases ZETA1/RICE0/PI0/GOLOMB1,2,4,8/EXP_GOLOMB0 included) through ConstCode<NAME>::{read,write,len}"]))
+        out.append(Obl(id=f"c10.names.to_code_const.{E.upper()}", prop="C10", engine="native", target=f"c10_names:c10_names_to_code_const_{E}", kind="bounded",
+                       bound="concrete execution: all 59 named codes x 11 values",
+                       fns=["Codes::to_code_const (yields the named constant) then Codes::from_code_const + write performs the named code"]))
+        for mech, what in (("codes", "Codes::{read,write,len}"), ("func", "FuncCodeReader/FuncCodeWriter/FuncCodeLen::new + call"),
+                           ("factory", "FactoryFuncCodeReader::{new,get}"), ("stats", "CodesStatsWrapper::{read,write}")):
+            out.append(Obl(id=f"c10.names.{mech}.{E.upper()}", prop="C10", engine="native", target=f"c10_names:c10_names_{mech}_{E}", kind="bounded",
+                           bound="concrete execution: all 59 named values of Codes (aliases Zeta{1}, Rice{0}, Pi{0}, Golomb{1,2,4,8}, ExpGolomb{0} included) x 11 values, 5 preceding bits",
+                           fns=[what + " for every named enumeration value"]))
     for t in ("len", "writer", "reader"):
         out.append(Obl(id=f"c10.unsupported.{t}", prop="C10", engine="native", target=f"c10_unsupported:c10_unsupported_{t}", kind="bounded",
                        bound="concrete execution: 32 unsupported codes", fns=[f"FuncCode{t.capitalize() if t != 'len' else 'Len'}::new (rejection)"]))
@@ -811,6 +852,8 @@ def _c18() -> List[Obl]:
     out = []
     for h, fns in (("write_read_be", ["vbyte_write_be", "vbyte_read_be"]), ("write_read_le", ["vbyte_write_le", "vbyte_read_le"]),
                    ("write_read_generic_be", ["vbyte_write::<BE>", "vbyte_read::<BE>"]), ("write_read_generic_le", ["vbyte_write::<LE>", "vbyte_read::<LE>"]),
+                   ("short_sink_be", ["vbyte_write_be (sink accepting 1..=len bytes per call)"]), ("short_sink_le", ["vbyte_write_le (sink accepting 1..=len bytes per call)"]),
+                   ("short_sink_generic_be", ["vbyte_write::<BE> (short-write sink)"]), ("short_sink_generic_le", ["vbyte_write::<LE> (short-write sink)"]),
                    ("complete_be", ["vbyte_read_be", "vbyte_write_be"]), ("complete_le", ["vbyte_read_le", "vbyte_write_le"])):
         out.append(Obl(id=f"c18.{h}", prop="C18", engine="kani", target=f"obl_c18::{h}", fns=["codes::vbyte::" + f for f in fns]))
     # the bit-stream codes against the same definition (C04) and the length function (C06)
